@@ -893,7 +893,8 @@ def generate(vc_path, canary=False):
                 # body starts at the first line that is exactly '{' + ...: find "\n{" after clauses
                 k = text.index('\n{') + 2
                 text = text[:k] + ' assert(false); /*canary*/ ' + text[k:]
-            qual = '%s :: %s :: %s' % (spec.file, spec.container or '-', spec.name)
+            qual = '%s :: %s%s :: %s' % (spec.file, spec.container or '-',
+                                         '[G=%s]' % spec.rules['T9'][0] if 'T9' in spec.rules else '', spec.name)
             info['qual'] = qual
             info['tags'] = spec.tags
             info['container'] = spec.container
@@ -939,6 +940,17 @@ def generate(vc_path, canary=False):
                 cur[1] = start_line + len(tl) - 1
             text += t
         else:
+            # sentinels in specification text (e.g. the clauses of a declared trait method)
+            base = text.count('\n') + 1
+            cl = ch.split('\n')
+            for off, l in enumerate(cl):
+                m = re.match(r'\s*//@@([^|]+)\|([^|]*)\|(.*)$', l)
+                if m:
+                    e = off + 1
+                    while e < len(cl) - 1 and not cl[e].rstrip().endswith((',', ';')):
+                        e += 1
+                    lm.append([base + off, base + e, '(spec)', m.group(1), m.group(2),
+                               [x for x in m.group(3).split(',') if x]])
             text += ch
     # clause inventory per fn
     for info in fns:
